@@ -126,6 +126,7 @@ func (c *clientStream) Context() context.Context {
 }
 
 func (c *clientStream) SendMsg(m any) error {
+	m = sentCopy(m)
 	select {
 	case <-c.ctx.Done():
 		return c.closeErrLocked()
@@ -197,6 +198,7 @@ func (s *serverStream) SendMsg(m any) error {
 		return s.closeErrLocked() // the call has ended: do not flush headers to a client that has gone
 	}
 	s.sendHeaderIfNeeded()
+	m = sentCopy(m)
 	select {
 	case <-s.ctx.Done():
 		return s.closeErrLocked()
@@ -215,6 +217,15 @@ func (s *serverStream) RecvMsg(m any) error {
 		}
 		return permissiveProtoMerge(m.(proto.Message), val.(proto.Message))
 	}
+}
+
+// sentCopy returns what a SendMsg puts on the wire: the message as it is now.
+// The receiver reads it after SendMsg has returned, when the sender may already be reusing m.
+func sentCopy(m any) any {
+	if pm, ok := m.(proto.Message); ok {
+		return proto.Clone(pm)
+	}
+	return m
 }
 
 func (s *serverStream) sendHeaderIfNeeded() {
